@@ -280,7 +280,7 @@ func (w *World) postApply(n *Node, snap *validateSnap, s consensus.State, e *blo
 	// the same inputs held in slices with room to spare (as proofs grown by
 	// append are): nothing may be written into that room either
 	{
-		sb, e2 := decodeBlock(encodeBlock(b))
+		sb, e2 := decodeBlockSafe(encodeBlock(b))
 		if e2 == nil && bytes.Equal(fullBlockBytes(sb), snap.block) {
 			sbs := copySupp(bs)
 			var all []*types.StateElement
@@ -332,7 +332,7 @@ func (w *World) postApply(n *Node, snap *validateSnap, s consensus.State, e *blo
 		}
 	}
 	// decoded copy
-	db, derr := decodeBlock(encodeBlock(b))
+	db, derr := decodeBlockSafe(encodeBlock(b))
 	if derr == nil {
 		ns3, au3 := consensus.ApplyBlock(s, db, copySupp(bs), ats)
 		if !bytes.Equal(encodeState(ns3), encodeState(ns)) {
